@@ -79,6 +79,23 @@ int main(int argc, char **argv) {
             if (!got) break;
             vh_seg++; vh_step = 0;
             mark = vh_ledger_mark();
+            if (inj_at || inj_from) {
+                /* constructor under allocation failure: NULL and nothing left allocated, or a working object */
+                for (long ck = 1; ck <= 16; ck++) {
+                    long m0 = vh_ledger_mark();
+                    vh_where = "ctor";
+                    vh_call_begin();
+                    if (inj_at) vh_fail_at = ck; else vh_fail_from = ck;
+                    T = qlisttbl(opts);
+                    long nf = vh_failed;
+                    vh_call_end();
+                    int cok = T != NULL;
+                    if (T) { T->free(T); T = NULL; }
+                    vh_emit("{\"op\":\"ctor\",\"k\":0,\"v\":0,\"inj\":%ld,\"nfail\":%ld,\"ok\":%s,\"live\":%ld}", ck, nf, vh_bool(cok), vh_live_since(m0));
+                    if (nf == 0) break;
+                }
+            }
+
             T = qlisttbl(opts);
             if (!T) return 2;
             vh_emit("{\"op\":\"reset\",\"k\":0,\"v\":0}");
@@ -92,6 +109,7 @@ int main(int argc, char **argv) {
         int inject = (inj_at || inj_from) && (!strcmp(op, "put") || !strcmp(op, "get") || !strcmp(op, "getmulti") || !strcmp(op, "walk")
                                               || !strcmp(op, "walkname") || !strcmp(op, "saveload"));
         for (long kk = 1;; kk++) {
+            if (inject && kk > 300) inject = 0;      /* give up injecting: finish the operation normally */
             int ok = 1; long n = 0, leak = 0;
             char *name = NULL, *val = NULL;
             if (k) { name = vh_malloc(strlen(KN[k]) + 1); strcpy(name, KN[k]); }
@@ -190,7 +208,7 @@ int main(int argc, char **argv) {
             vh_bprintf(&b, "],\"num\":%zu,\"leak\":%ld,\"lkd\":%ld,\"ovl\":%ld,\"bf\":%ld}", T->num, leak, (vh_locks - vh_unlocks) - lkb,
                        vh_overlap_copies - ovb, vh_badfree - bfb);
             vh_bflush(&b);
-            if (!inject || nfail == 0 || ok || kk > 64) break;
+            if (!inject || nfail == 0 || ok ) break;
         }
     }
     vh_close();
